@@ -117,7 +117,18 @@ func (e *kvElection) handleValidationFailureOfTerm(termCtx context.Context, err 
 	e.runOnDemote("token_validation_failure")
 }
 
-func (e *kvElection) handleValidationFailure(err error) {
+// handleValidationFailureOfToken demotes the instance after a failed validation
+// of the term that carries the given token. It reports whether that term was
+// still the current one (and has been ended by this call).
+func (e *kvElection) handleValidationFailureOfToken(token string, err error) bool {
+	e.mu.Lock()
+	demoted := e.isLeader.Load() && e.Token() == token && e.becomeFollowerLocked()
+	e.mu.Unlock()
+	if !demoted {
+		// somebody else already noticed the loss and ran the callback
+		return false
+	}
+
 	log := e.getLogger()
 	log.Error("demoting_due_to_validation_failure",
 		append(e.logWithContext(e.logCtx()),
@@ -125,10 +136,6 @@ func (e *kvElection) handleValidationFailure(err error) {
 			zap.String("error_type", classifyErrorType(err)),
 		)...,
 	)
-
-	if !e.becomeFollower() {
-		// somebody else already noticed the loss and ran the callback
-		return
-	}
 	e.runOnDemote("token_validation_failure")
+	return true
 }
